@@ -271,7 +271,7 @@ class Repo:
         from . import normalize
         mods = [m for m in self.modules.values() if m.name != 'setup']
         normalize.compute_mutators([m.tree for m in mods])
-        helpers = {m.name: normalize._module_helpers(m.tree) for m in mods}
+        helpers = {m.name: normalize._module_helpers(m.tree, backend='.cython.' in m.name) for m in mods}
         bindings = {m.name: normalize._module_bindings(m.tree) for m in mods}
         import builtins
         for m in mods:
@@ -292,6 +292,7 @@ class Repo:
             key = hashlib.sha1()
             key.update(_NORMALIZE_DIGEST.encode())
             key.update(m.source.encode())
+            key.update(m.name.encode())
             key.update(repr(sorted((k, sorted(v)) for k, v in normalize.MUTATORS.items())).encode())
             key.update(repr(sorted(normalize.KNOWN_FUNCS)).encode())
             for local in sorted(imported):
@@ -301,7 +302,7 @@ class Repo:
             if cached is not None:
                 m.tree = cached
             else:
-                normalize.normalize_module(m.tree, imported)
+                normalize.normalize_module(m.tree, imported, backend='.cython.' in m.name)
                 _cache_put(key.hexdigest(), m.tree)
             m.functions.clear()
             m.imports.clear()
